@@ -50,10 +50,19 @@ class Frame:
         ctx = self.ctx
         ctx.site += 1
         site = ctx.site
+        ctx.rd_stack.append(site)
+        try:
+            return self._rd(call, var, period, opt, site)
+        finally:
+            ctx.rd_stack.pop()
+
+    def _rd(self, call, var, period, opt, site):
+        ctx = self.ctx
         fault = ctx.plan.get(site)
         if fault is not None and fault["kind"] not in RD_KINDS:
             fault = None  # a fault of another site type: not applicable here
         options = None if opt is None else [opt]
+        asked = (var, period, options)
         if fault is not None:
             kind = fault["kind"]
             if kind == "bad_var":
@@ -78,6 +87,7 @@ class Frame:
                 options = ["LAGRANGIAN"]
             if fault is not None and kind != "raise_after":
                 ctx.fired.append((site, kind))  # (raise_any fires here, raises after the read)
+                ctx.arm(fault, exclude_self=kind == "raise_any")
         rec = [var, period, opt, None, True]
         self.reads.append(rec)
         ent = getattr(call, "entity", None)
@@ -90,6 +100,22 @@ class Frame:
                 value = call(var, period)
             else:
                 value = call(var, period, options)
+        except Exception as e:  # noqa: BLE001
+            if ctx.catcher != site:
+                raise
+            # F1c: this formula handles the failure of the request it made, and
+            # makes the request again - the cause is gone - before carrying on
+            ctx.catcher = None
+            ctx.caught.append((site, e))
+            var, period, options = asked
+            rec = [var, period, opt, None, True]
+            self.reads.append(rec)
+            if options is None:
+                value = call(var, period)
+            else:
+                value = call(var, period, options)
+            if fault is not None and fault["kind"] not in ("raise_after", "raise_any"):
+                fault = None
         finally:
             ctx.depth -= 1
         rec[3] = value
@@ -101,6 +127,7 @@ class Frame:
         if fault is not None and fault["kind"] in ("raise_after", "raise_any"):
             if fault["kind"] == "raise_after":
                 ctx.fired.append((site, "raise_after"))
+                ctx.arm(fault, exclude_self=True)
             raise InjectedFault(site)
         return value
 
@@ -114,6 +141,7 @@ class Frame:
         instant = period
         if fault is not None and fault["kind"] == "undef_param":
             ctx.fired.append((site, "undef_param"))
+            ctx.arm(fault)
             instant = "1850-01-01"
             path = "late.p3"
         node = parameters(instant)
@@ -133,6 +161,7 @@ class Frame:
         if fault is not None:
             kind = fault["kind"]
             ctx.fired.append((site, kind))
+            ctx.arm(fault)
             if kind in ("raise", "raise_any"):
                 raise InjectedFault(site)
             if kind == "bad_len":
@@ -183,6 +212,9 @@ class Ctx:
         self.kinds = []  # kind of every site, in order (for fault enumeration)
         self.depth = 0
         self.call_stack = []  # harness call tree (C17.trace), see sim.watch_calls
+        self.rd_stack = []  # sites of the variable reads in progress, outermost first
+        self.catcher = None  # site of the read whose formula handles the failure
+        self.caught = []  # [(site of that read, the exception it received)]
 
     def count_of(self, var):
         return self.counts.get(var, 1)
@@ -200,8 +232,19 @@ class Ctx:
         fault = self.plan.get(site)
         if fault is not None and fault["kind"] in ("raise", "raise_any"):
             self.fired.append((site, fault["kind"]))
+            self.arm(fault)
             raise InjectedFault(site)
         return frame
+
+    def arm(self, fault, exclude_self=False) -> None:
+        """F1c: the failure about to happen is handled by the formula `catch_up`
+        variable reads further up (the outermost one when there are fewer)."""
+        n = fault.get("catch_up")
+        if not n:
+            return
+        stack = self.rd_stack[:-1] if exclude_self else self.rd_stack
+        if stack:
+            self.catcher = stack[-min(n, len(stack))]
 
     # summaries ------------------------------------------------------------- #
     def incomplete(self):
